@@ -117,7 +117,7 @@ class Builder:
 def _head(b, scratch_dir, n=12):
     txt = b.decode("utf-8", "replace").replace(scratch_dir, "<scratch>")
     lines = [l for l in txt.splitlines() if l.strip()]
-    keep = [l for l in lines if "error" in l][:6] or lines[:n]
+    keep = [l for l in lines if "error" in l or "multiple definition" in l or "undefined reference" in l or "duplicate symbol" in l][:6] or lines[:n]
     return "\n".join(keep)[:1500]
 
 
@@ -142,6 +142,11 @@ def judge_twin(builder, tree, plan, header, extra_toolchain=True):
         return "NOT_SELF_CONTAINED", detail
     elif s["ok"] and not m["ok"]:
         return "MULTI_REJECTS", detail
+    elif s["stage"] == "link" and ("multiple definition" in s["diag"] or "duplicate symbol" in s["diag"]):
+        # The probe's own symbols are distinct per TU, so a duplicate definition at link time
+        # comes from the package: it cannot be included in several translation units, whatever
+        # the multi-header tree does with the same program.
+        return "NOT_MULTI_TU_SAFE", detail
     else:
         verdict = "BOTH_REJECT"
     tcb = plan["toolchain"].get("b")
